@@ -174,78 +174,9 @@ def inst_time_units(cx, iid):
                                            at=b.span_at(loc))
 
 
-def run(cx):
+def inst_rate_floor(cx, iid):
     R = cx.R
-    with cx.instance("C14.a", "T7 SHAPE (AC-normal form)", "TCP throughput equation, RTT filter, RTO and initial rates are the RFC 5348 expressions", floor=6) as inst:
-        want = {
-            SR + "eval_tcp_throughput": "1472*1/((12*(1 + 32*arg2*arg2)*arg2*f64::sqrt(3/8*arg2) + f64::sqrt(2/3*arg2))*arg1)",
-            SR + "compute_initial_send_rate": "4380*1/(arg1)",
-            SR + "compute_initial_loss_send_rate": "736*1/(arg1)",
-        }
-        mss = R.const_int(SR + "MSS")
-        itw = R.const_int(SR + "INITIAL_TCP_WINDOW")
-        want[SR + "eval_tcp_throughput"] = want[SR + "eval_tcp_throughput"].replace("1472", str(mss))
-        want[SR + "compute_initial_send_rate"] = want[SR + "compute_initial_send_rate"].replace("4380", str(itw))
-        want[SR + "compute_initial_loss_send_rate"] = want[SR + "compute_initial_loss_send_rate"].replace("736", str(mss // 2))
-        for fn, w in want.items():
-            b = R.body(fn)
-            from rules import strip_result_cast
-            got = acnf(strip_result_cast(b.local_expr(0)))  # the functions return u32: the final (saturating) conversion is the return type
-            inst.site(b, None, "%s = %s" % (fn.split("::")[-1], got))
-            if got != w:
-                inst.violation(b.path, "formula", "%s computes `%s`; RFC 5348 transcription expected `%s`" % (fn.split("::")[-1], got, w))
-        ur = R.body("SendRateComp::update_rtt")
-        upd = []
-        for l, s in ur.assigns():
-            if not s["pl"]["p"] and not ur.is_single_def(s["pl"]["l"]) and ur.locals[s["pl"]["l"]]["ty"] == "f64":
-                upd.append((l, acnf(ur.rvalue_expr(s["rv"]))))
-        forms = sorted(x for _, x in upd)
-        inst.site(ur, None, "update_rtt: " + " | ".join(forms))
-        if forms != ["(1/10*arg2 + 9/10*arg1.rtt_s@Some.0)", "arg2"]:
-            inst.violation(ur.path, "rtt filter", "RTT estimate is updated as %s; expected 0.9*R + 0.1*sample (first sample taken as is)" % forms)
-        else:
-            for l, x in upd:
-                need = r"is\(arg1\.rtt_s,Some\)" if "9/10" in x else r"is\(arg1\.rtt_s,None\)"
-                good, _ = dnf_holds(cx.fa(ur).at(l), [[need]])
-                if not good:
-                    inst.violation(ur.path, "rtt filter arm", "the first-sample / filtered arms of update_rtt are swapped", at=ur.span_at(l))
-        uo = R.body("SendRateComp::update_rto")
-        got = [acnf(uo.call_expr(t)) for l, t in uo.calls("f64::max")]
-        inst.site(uo, None, "update_rto: " + " | ".join(got))
-        if got != ["f64::max(%d*1/(arg3),4*arg2)" % (2 * mss)]:
-            inst.violation(uo.path, "rto", "RTO is %s; expected max(4*R, 2*s/X)" % got)
-        # slow-start step
-        hf = R.body("SendRateComp::handle_feedback")
-        steps = [show(hf.rvalue_expr(n["rv"])) for l, n, ps in hf.field_writes(r"arg1\.send_rate") if n["k"] == "assign"]
-        ss = [s for s in steps if "mul(2,arg1.send_rate)" in s]
-        inst.site(hf, None, "slow-start step: " + " | ".join(ss)[:160])
-        if len(ss) != 1 or not re.fullmatch(r"Ord::max\(Ord::min\(mul\(2,arg1\.send_rate\),var\d+\),send_rate::compute_initial_send_rate\(.*\)\)", ss[0]):
-            inst.violation(hf.path, "slow-start step", "slow-start update is %s; expected max(min(2*X, recv_limit), W_init/R)" % ss)
-
-    with cx.instance("C14.b", "T9 CONST", "s = MAX_FRAME_SIZE; floor = s/64; W_init = min(max(2s,4380),4s); initial no-feedback timer 2 s", floor=4) as inst:
-        mss = R.const_int(SR + "MSS")
-        mfs = R.const_int("MAX_FRAME_SIZE")
-        inst.site("<const>", None, "MSS=%d MAX_FRAME_SIZE=%d" % (mss, mfs))
-        if mss != mfs:
-            inst.violation(SR + "MSS", "MSS", "segment size %d differs from MAX_FRAME_SIZE %d" % (mss, mfs))
-        mr = R.const_int(SR + "MINIMUM_RATE")
-        inst.site("<const>", None, "MINIMUM_RATE=%d" % mr)
-        if mr != mss // 64:
-            inst.violation(SR + "MINIMUM_RATE", "MINIMUM_RATE", "floor is %d, expected s/64 = %d" % (mr, mss // 64))
-        itw = R.const_int(SR + "INITIAL_TCP_WINDOW")
-        inst.site("<const>", None, "INITIAL_TCP_WINDOW=%d" % itw)
-        if itw != min(max(2 * mss, 4380), 4 * mss):
-            inst.violation(SR + "INITIAL_TCP_WINDOW", "INITIAL_TCP_WINDOW", "initial window %d, expected min(max(2s,4380),4s) = %d" % (itw, min(max(2 * mss, 4380), 4 * mss)))
-        nf = R.body("SendRateComp::notify_frame_sent")
-        ok = False
-        for l, n, ps in nf.field_writes(r"arg1\.nofeedback_exp_ms"):
-            e = show(nf.rvalue_expr(n["rv"]))
-            inst.site(nf, l, "nofeedback_exp_ms = " + e)
-            ok = e in ("Some{add(2000,arg2)}", "Some{add(arg2,2000)}")
-        if not ok:
-            inst.violation(nf.path, "initial nofeedback timer", "the initial no-feedback timer is not now + 2000 ms")
-
-    with cx.instance("C14.c", "T2/T7 floor", "every write of the allowed rate outside the constructor is floored (or is the ceiling clamp); halvings are max(X/2, floor)", floor=6) as inst:
+    with cx.instance(iid, "T2/T7 floor", "every write of the allowed rate outside the constructor is floored (or is the ceiling clamp); halvings are max(X/2, floor)", floor=6) as inst:
         MR = r"half_connection::send_rate::MINIMUM_RATE"
         INIT = r"send_rate::compute_initial_send_rate\(SendRateComp::update_rtt\(arg1,send_rate::ms_to_s\(arg3\.rtt_ms\)\)\.0\)"
         TCP = r"arg1\.mode@ThroughputEqn\.0\.send_rate_tcp"
@@ -300,6 +231,91 @@ def run(cx):
             inst.violation(hf.path, "recv_limit", "recv_limit is computed as %s; expected 2*X_recv_set except after a loss increase" % sorted(lim))
 
 
+
+
+def run(cx):
+    R = cx.R
+    with cx.instance("C14.a", "T7 SHAPE (AC-normal form)", "TCP throughput equation, RTT filter, RTO and initial rates are the RFC 5348 expressions", floor=6) as inst:
+        want = {
+            SR + "eval_tcp_throughput": "1472*1/((12*(1 + 32*arg2*arg2)*arg2*f64::sqrt(3/8*arg2) + f64::sqrt(2/3*arg2))*arg1)",
+            SR + "compute_initial_send_rate": "4380*1/(arg1)",
+            SR + "compute_initial_loss_send_rate": "736*1/(arg1)",
+        }
+        mss = R.const_int(SR + "MSS")
+        itw = R.const_int(SR + "INITIAL_TCP_WINDOW")
+        want[SR + "eval_tcp_throughput"] = want[SR + "eval_tcp_throughput"].replace("1472", str(mss))
+        want[SR + "compute_initial_send_rate"] = want[SR + "compute_initial_send_rate"].replace("4380", str(itw))
+        want[SR + "compute_initial_loss_send_rate"] = want[SR + "compute_initial_loss_send_rate"].replace("736", str(mss // 2))
+        for fn, w in want.items():
+            b = R.body(fn)
+            from rules import strip_result_cast
+            got = acnf(strip_result_cast(b.local_expr(0)))  # the functions return u32: the final (saturating) conversion is the return type
+            inst.site(b, None, "%s = %s" % (fn.split("::")[-1], got))
+            if got != w:
+                inst.violation(b.path, "formula", "%s computes `%s`; RFC 5348 transcription expected `%s`" % (fn.split("::")[-1], got, w))
+        ur = R.body("SendRateComp::update_rtt")
+        upd = []
+        for l, s in ur.assigns():
+            if not s["pl"]["p"] and not ur.is_single_def(s["pl"]["l"]) and ur.locals[s["pl"]["l"]]["ty"] == "f64":
+                upd.append((l, acnf(ur.rvalue_expr(s["rv"]))))
+        if not upd:
+            # the same filter as an expression: self.rtt_s.map(|r| 0.9*r + 0.1*sample).unwrap_or(sample)
+            from rules import split_option_map
+            for l, n_, ps in ur.field_writes(r"arg1\.rtt_s"):
+                ve = ur.rvalue_expr(n_["rv"]) if n_["k"] == "assign" else None
+                if ve and ve[0] == "agg" and ve[1] == "Some" and ve[2]:
+                    sp = split_option_map(R, ve[2][0])
+                    if sp and show(sp[0]) == "arg1.rtt_s":
+                        upd = [(None, acnf(sp[1])), (None, acnf(sp[2]))]
+        forms = sorted(x for _, x in upd)
+        inst.site(ur, None, "update_rtt: " + " | ".join(forms))
+        if forms != ["(1/10*arg2 + 9/10*arg1.rtt_s@Some.0)", "arg2"]:
+            inst.violation(ur.path, "rtt filter", "RTT estimate is updated as %s; expected 0.9*R + 0.1*sample (first sample taken as is)" % forms)
+        else:
+            for l, x in upd:
+                if l is None:
+                    continue  # expression form: the arms are the closure (Some) and the default (None) by construction
+                need = r"is\(arg1\.rtt_s,Some\)" if "9/10" in x else r"is\(arg1\.rtt_s,None\)"
+                good, _ = dnf_holds(cx.fa(ur).at(l), [[need]])
+                if not good:
+                    inst.violation(ur.path, "rtt filter arm", "the first-sample / filtered arms of update_rtt are swapped", at=ur.span_at(l))
+        uo = R.body("SendRateComp::update_rto")
+        got = [acnf(uo.call_expr(t)) for l, t in uo.calls("f64::max")]
+        inst.site(uo, None, "update_rto: " + " | ".join(got))
+        if got != ["f64::max(%d*1/(arg3),4*arg2)" % (2 * mss)]:
+            inst.violation(uo.path, "rto", "RTO is %s; expected max(4*R, 2*s/X)" % got)
+        # slow-start step
+        hf = R.body("SendRateComp::handle_feedback")
+        steps = [show(hf.rvalue_expr(n["rv"])) for l, n, ps in hf.field_writes(r"arg1\.send_rate") if n["k"] == "assign"]
+        ss = [s for s in steps if "mul(2,arg1.send_rate)" in s]
+        inst.site(hf, None, "slow-start step: " + " | ".join(ss)[:160])
+        if len(ss) != 1 or not re.fullmatch(r"Ord::max\(Ord::min\(mul\(2,arg1\.send_rate\),var\d+\),send_rate::compute_initial_send_rate\(.*\)\)", ss[0]):
+            inst.violation(hf.path, "slow-start step", "slow-start update is %s; expected max(min(2*X, recv_limit), W_init/R)" % ss)
+
+    with cx.instance("C14.b", "T9 CONST", "s = MAX_FRAME_SIZE; floor = s/64; W_init = min(max(2s,4380),4s); initial no-feedback timer 2 s", floor=4) as inst:
+        mss = R.const_int(SR + "MSS")
+        mfs = R.const_int("MAX_FRAME_SIZE")
+        inst.site("<const>", None, "MSS=%d MAX_FRAME_SIZE=%d" % (mss, mfs))
+        if mss != mfs:
+            inst.violation(SR + "MSS", "MSS", "segment size %d differs from MAX_FRAME_SIZE %d" % (mss, mfs))
+        mr = R.const_int(SR + "MINIMUM_RATE")
+        inst.site("<const>", None, "MINIMUM_RATE=%d" % mr)
+        if mr != mss // 64:
+            inst.violation(SR + "MINIMUM_RATE", "MINIMUM_RATE", "floor is %d, expected s/64 = %d" % (mr, mss // 64))
+        itw = R.const_int(SR + "INITIAL_TCP_WINDOW")
+        inst.site("<const>", None, "INITIAL_TCP_WINDOW=%d" % itw)
+        if itw != min(max(2 * mss, 4380), 4 * mss):
+            inst.violation(SR + "INITIAL_TCP_WINDOW", "INITIAL_TCP_WINDOW", "initial window %d, expected min(max(2s,4380),4s) = %d" % (itw, min(max(2 * mss, 4380), 4 * mss)))
+        nf = R.body("SendRateComp::notify_frame_sent")
+        ok = False
+        for l, n, ps in nf.field_writes(r"arg1\.nofeedback_exp_ms"):
+            e = show(nf.rvalue_expr(n["rv"]))
+            inst.site(nf, l, "nofeedback_exp_ms = " + e)
+            ok = e in ("Some{add(2000,arg2)}", "Some{add(arg2,2000)}")
+        if not ok:
+            inst.violation(nf.path, "initial nofeedback timer", "the initial no-feedback timer is not now + 2000 ms")
+
+    inst_rate_floor(cx, "C14.c")
     with cx.instance("C14.g", "T2 PAIR (stores) + T7", "the quantities the bounds are stated over are actually stored: X_Bps is re-evaluated from the current R and p before the equation-phase rate is set; update_rtt/update_rto store the new estimate; s_to_ms = round(max(1000 v, 0)); both feedback and expiry re-arm the no-feedback timer at now + RTO", floor=8) as inst:
         hf = R.body("SendRateComp::handle_feedback")
         tcp_w = [(l, show(hf.rvalue_expr(n["rv"])) if n["k"] == "assign" else show(hf.call_expr(n))) for l, n, ps in hf.field_writes(r"arg1\.mode@ThroughputEqn\.0\.send_rate_tcp")]
@@ -321,17 +337,25 @@ def run(cx):
         if not sw:
             inst.violation(hf.path, "equation phase", "handle_feedback never enters the throughput-equation phase (anchor)")
         ur = R.body("SendRateComp::update_rtt")
-        for fld, want in (("rtt_s", r"Some\{var\d+\}"), ("rtt_ms", r"Some\{send_rate::s_to_ms\(var\d+\)\}")):
+        # the new estimate E: a local assigned in the two arms of the filter, or the filter as one expression
+        EST = None
+        for l, n, ps in ur.field_writes(r"arg1\.rtt_s"):
+            if n["k"] == "assign":
+                m_ = re.fullmatch(r"Some\{(.*)\}", show(ur.rvalue_expr(n["rv"])))
+                if m_ and (re.fullmatch(r"var\d+", m_.group(1)) or re.fullmatch(r"Option::(unwrap_or\(Option::map|map_or)\(arg1\.rtt_s,.*", m_.group(1))):
+                    EST = m_.group(1)
+        E_ = re.escape(EST) if EST else r"var\d+"
+        for fld, want in (("rtt_s", r"Some\{%s\}" % E_), ("rtt_ms", r"Some\{send_rate::s_to_ms\(%s\)\}" % E_)):
             ws = [(l, show(ur.rvalue_expr(n["rv"]))) for l, n, ps in ur.field_writes(r"arg1\." + fld) if n["k"] == "assign"]
             for l, v in ws:
-                inst.site(ur, l, "%s = %s" % (fld, v))
+                inst.site(ur, l, "%s = %s" % (fld, v[:90]))
                 if not re.fullmatch(want, v):
                     inst.violation(ur.path, fld + " store", "update_rtt stores %s = `%s`" % (fld, v), at=ur.span_at(l))
             cx.followed_by(inst, ur, [(Loc(0, -1), "entry of update_rtt")], [l for l, _ in ws], fld + " not stored", "self.%s = Some(new estimate)" % fld)
         # the stored estimate is the filtered value that is also returned
         ret = show(ur.local_expr(0))
         inst.site(ur, None, "update_rtt returns " + ret[:80])
-        if not re.fullmatch(r"tuple\{(var\d+),send_rate::s_to_ms\(\1\)\}", ret):
+        if not re.fullmatch(r"tuple\{%s,send_rate::s_to_ms\(%s\)\}" % (E_, E_), ret) or (EST is None and not re.fullmatch(r"tuple\{(var\d+),send_rate::s_to_ms\(\1\)\}", ret)):
             inst.violation(ur.path, "return", "update_rtt returns `%s`, expected (new R, s_to_ms(new R))" % ret)
         uo = R.body("SendRateComp::update_rto")
         ws = [(l, show(uo.rvalue_expr(n["rv"]))) for l, n, ps in uo.field_writes(r"arg1\.rto_ms") if n["k"] == "assign"]
